@@ -8,8 +8,6 @@ import (
 	"go/types"
 	"sort"
 	"strings"
-
-	"golang.org/x/tools/go/cfg"
 )
 
 // staticReach: functions of the repository reachable from root through static calls
@@ -250,55 +248,138 @@ func c04Close(c *Ctx, info *types.Info) {
 	}
 	g := c.P.Graph(fi)
 	name := fi.Name
-	susp := g.Calls(func(fn *types.Func, _ *ast.CallExpr) bool { return fn != nil && repoName(fn) == "vaxis.Vaxis.Suspend" })
-	if len(susp) != 1 {
-		c.bad("C04.b", name+"/calls Suspend", fi.Decl.Pos(), "Close must call Suspend exactly once (found %d calls)", len(susp))
-		return
-	}
-	sl := susp[0].Loc
-	// every normal exit that bypasses Suspend is guarded by vx.closed
-	okBypass := true
-	g.walk(g.Entry(), func(l Loc, n ast.Node) bool {
-		return l != sl
-	}, func(b *cfg.Block) {
-		gk := guardKeys(g, Loc{b, len(b.Nodes)})
-		if !containsStr(gk, "+Vaxis.closed") {
-			okBypass = false
-		}
-	})
-	c.check(okBypass, "C04.b", name+"/every return without Suspend is the already-closed early-out", fi.Decl.Pos(),
-		"only the `closed` early return bypasses Suspend", "Close can return without restoring the terminal on a path not guarded by `closed`")
-	// closed = true precedes Suspend (idempotence even under re-entry from the signal/panic paths)
-	isSetClosed := func(n ast.Node) bool {
-		as, ok := n.(*ast.AssignStmt)
-		if !ok || len(as.Lhs) != 1 || len(as.Rhs) != 1 {
-			return false
-		}
-		if lhsPath(info, as.Lhs[0]) != "Vaxis.closed" {
-			return false
-		}
-		tv := info.Types[as.Rhs[0]]
-		return tv.Value != nil && tv.Value.String() == "true"
-	}
-	c.check(g.MustPrecede(isSetClosed, sl), "C04.b", name+"/closed=true precedes Suspend", susp[0].Node.Pos(),
-		"the closed mark is set before the terminal is restored, a second Close is a no-op", "Suspend can run before Close marks itself closed: a second Close restores twice / closes chQuit twice")
-	okC, _ := g.MustFollow(sl, func(n ast.Node) bool {
+	isSuspendCall := func(n ast.Node) bool { return isCallTo(info, n, "vaxis.Vaxis.Suspend") }
+	isConsoleClose := func(n ast.Node) bool {
 		call, ok := n.(*ast.CallExpr)
 		if !ok {
 			return false
 		}
 		sel, ok := call.Fun.(*ast.SelectorExpr)
 		return ok && sel.Sel.Name == "Close" && canonPath(info, sel.X) == "Vaxis.console"
-	})
-	c.check(okC, "C04.b", name+"/console.Close follows Suspend", susp[0].Node.Pos(), "console closed after the restore", "console.Close does not follow Suspend on every path")
-	// the early-out test reads closed
-	early := false
-	for _, b := range g.Blocks {
-		if cd := g.BranchCond(b); cd != nil && cd.Tag == nil && canonExpr(info, cd.Expr) == "Vaxis.closed" {
-			early = true
-		}
 	}
-	c.check(early, "C04.b", name+"/early-out on closed", fi.Decl.Pos(), "second Close returns immediately", "Close has no early return on `closed`: a second Close re-runs the shutdown")
+	isCloseQuit := func(n ast.Node) bool {
+		call, ok := n.(*ast.CallExpr)
+		if !ok || len(call.Args) != 1 {
+			return false
+		}
+		id, ok := unparen(call.Fun).(*ast.Ident)
+		if !ok || id.Name != "close" {
+			return false
+		}
+		if _, isBuiltin := info.Uses[id].(*types.Builtin); !isBuiltin {
+			return false
+		}
+		return canonPath(info, call.Args[0]) == "Vaxis.chQuit"
+	}
+	// The rules are decided by a path-sensitive search over the value of vx.closed (and of boolean locals
+	// computed from it), so that `if closed { return }; body` and `if !closed { body }`, a switch, a local
+	// copy of the flag or an accessor are all judged alike.
+	const closed = "Vaxis.closed"
+	closedWriters := map[string]bool{}
+	for _, f := range c.P.FuncsIn("vaxis") {
+		if f.Decl.Body == nil {
+			continue
+		}
+		ast.Inspect(f.Decl.Body, func(n ast.Node) bool {
+			switch t := n.(type) {
+			case *ast.AssignStmt:
+				for _, l := range t.Lhs {
+					if lhsPath(f.Pkg.TypesInfo, l) == closed {
+						closedWriters[f.Name] = true
+					}
+				}
+			case *ast.UnaryExpr:
+				if t.Op.String() == "&" && lhsPath(f.Pkg.TypesInfo, t.X) == closed {
+					closedWriters[f.Name] = true
+				}
+			}
+			return true
+		})
+	}
+	killMemo := map[string]bool{}
+	flow := &c04Flow{p: c.P, g: g, fields: map[string]bool{closed: true}}
+	flow.kills = func(call *ast.CallExpr) []string {
+		cf := c.P.FuncOfObj(calleeOf(info, call))
+		if cf == nil {
+			return nil
+		}
+		v, ok := killMemo[cf.Name]
+		if !ok {
+			for fn := range staticReach(c.P, cf) {
+				if closedWriters[fn] {
+					v = true
+				}
+			}
+			killMemo[cf.Name] = v
+		}
+		if v {
+			return []string{closed}
+		}
+		return nil
+	}
+	// helpers a refactoring introduced (not on the reference list) are analysed in place
+	flow.descend = func(call *ast.CallExpr) *FG {
+		cf := c.P.FuncOfObj(calleeOf(info, call))
+		if cf == nil || cf.Decl.Body == nil || cf.Pkg != fi.Pkg || refFuncNames[cf.Decl.Name.Name] {
+			return nil
+		}
+		return c.P.Graph(cf)
+	}
+	// (1) first Close (closed == false on entry): every normal return has passed Suspend and then
+	//     console.Close, and at Suspend the closed mark is already set.
+	const evSusp, evCons, evConsDeferred = "#suspend", "#console.Close", "#deferred console.Close"
+	okBypass, okMark, okC := true, true, true
+	var suspPos tokenPos
+	flow.effect = func(n ast.Node, env c04Env) c04Env {
+		if containsNode(n, isSuspendCall) {
+			if suspPos == 0 {
+				suspPos = n.Pos()
+			}
+			if v, known := env[closed]; !known || !v {
+				okMark = false
+			}
+			env = env.clone()
+			env[evSusp] = true
+			delete(env, evCons)
+		}
+		if containsNode(n, isConsoleClose) {
+			env = env.clone()
+			if _, isDefer := n.(*ast.DeferStmt); isDefer {
+				env[evConsDeferred] = true
+			} else if env[evSusp] {
+				env[evCons] = true
+			}
+		}
+		return env
+	}
+	flow.run(c04Env{closed: false}, nil, func(env c04Env) {
+		if !env[evSusp] {
+			okBypass = false
+		} else if !env[evCons] && !env[evConsDeferred] {
+			okC = false
+		}
+	})
+	if suspPos == 0 {
+		c.bad("C04.b", name+"/calls Suspend", fi.Decl.Pos(), "Close must call Suspend (no call is reached when `closed` is unset)")
+		return
+	}
+	c.check(okBypass, "C04.b", name+"/every return without Suspend is the already-closed early-out", fi.Decl.Pos(),
+		"a Close that finds `closed` unset cannot return without running Suspend", "Close can return without restoring the terminal on a path not guarded by `closed`")
+	// closed = true precedes Suspend (idempotence even under re-entry from the signal/panic paths)
+	c.check(okMark, "C04.b", name+"/closed=true precedes Suspend", suspPos,
+		"the closed mark is set before the terminal is restored, a second Close is a no-op", "Suspend can run before Close marks itself closed: a second Close restores twice / closes chQuit twice")
+	c.check(okC, "C04.b", name+"/console.Close follows Suspend", suspPos, "console closed after the restore", "console.Close does not follow Suspend on every path")
+	// (2) second Close (closed == true on entry): the shutdown is not run again
+	early := true
+	flow.effect = nil
+	flow.run(c04Env{closed: true}, func(n ast.Node, env c04Env) bool {
+		if containsNode(n, isSuspendCall) || containsNode(n, isConsoleClose) || containsNode(n, isCloseQuit) {
+			early = false
+			return false
+		}
+		return true
+	}, nil)
+	c.check(early, "C04.b", name+"/early-out on closed", fi.Decl.Pos(), "second Close returns without running the shutdown again", "Close has no early return on `closed`: a second Close re-runs the shutdown")
 }
 
 func c04Suspend(c *Ctx, fi *FuncInfo, info *types.Info) {
@@ -520,7 +601,9 @@ func c04Resume(c *Ctx, info *types.Info) {
 		"New after the query phase and Resume both run ["+strings.Join(a, ",")+"]", fmt.Sprintf("New establishes [%s] but Resume establishes [%s]", strings.Join(a, ","), strings.Join(b, ",")))
 	// both open the tty before establishing modes
 	g := c.P.Graph(rs)
-	en := g.Calls(func(fn *types.Func, _ *ast.CallExpr) bool { return fn != nil && repoName(fn) == "vaxis.Vaxis.enableModes" })
+	en := g.Calls(func(fn *types.Func, _ *ast.CallExpr) bool {
+		return fn != nil && repoName(fn) == "vaxis.Vaxis.enableModes"
+	})
 	okOpen := len(en) > 0 && g.MustPrecede(func(n ast.Node) bool { return isCallTo(info, n, "vaxis.Vaxis.openTty") }, en[0].Loc)
 	c.check(okOpen, "C04.c", "vaxis.(*Vaxis).Resume/openTty precedes enableModes", rs.Decl.Pos(), "raw mode and parser re-established first", "Resume enables modes before reopening the tty")
 }
@@ -552,14 +635,48 @@ func c04GuardStability(c *Ctx, info *types.Info) {
 	sort.Strings(names)
 	allowed := map[string]bool{"vaxis.New": true, "vaxis.(*Vaxis).sendQueries": true, "vaxis.(*Vaxis).applyQuirks": true}
 	for _, n := range names {
-		c.check(allowed[n], "C04.d", n+"/writes caps", c.P.Func(n).Decl.Pos(), "start-up phase writer of capability flags", "capability flags are written outside the start-up phase: a mode enabled under a flag may never be reset")
+		if allowed[n] {
+			c.ok("C04.d", n+"/writes caps", c.P.Func(n).Decl.Pos(), "start-up phase writer of capability flags")
+			continue
+		}
+		// a writer that is only a part of a start-up function: an unexported function, never used as a value or
+		// called dynamically, whose every call is a plain call (no go/defer, not inside a function literal) in the
+		// body of a start-up function or of another such part. Where New calls it is judged below (calls that
+		// reach a writer count as writes for "no capability write after enableModes"), and the frame/exit/resume
+		// roots must still not reach it.
+		if c04NeverReferenced(c, c.P.Func(n)) {
+			c.okTrivial("C04.d", n+"/writes caps", c.P.Func(n).Decl.Pos(), "unexported and never referenced (dead, or a helper whose calls were all inlined into their callers): it never runs")
+			continue
+		}
+		if root := c04StartupPartOf(c, c.P.Func(n), allowed); root != "" {
+			c.ok("C04.d", n+"/writes caps", c.P.Func(n).Decl.Pos(), "writer of capability flags that runs only as a part of %s (unexported, plain calls only)", root)
+			continue
+		}
+		c.bad("C04.d", n+"/writes caps", c.P.Func(n).Decl.Pos(), "capability flags are written outside the start-up phase: a mode enabled under a flag may never be reset")
 	}
 	nw := c.P.Func("vaxis.New")
 	if nw == nil {
 		return
 	}
+	// a call counts as a capability write when the callee reaches a writer through static calls
+	reachMemo := map[string]bool{}
+	reachesWriter := func(fi *FuncInfo) bool {
+		if v, ok := reachMemo[fi.Name]; ok {
+			return v
+		}
+		r := false
+		for fn := range staticReach(c.P, fi) {
+			if writers[fn] && fn != "vaxis.New" {
+				r = true
+			}
+		}
+		reachMemo[fi.Name] = r
+		return r
+	}
 	g := c.P.Graph(nw)
-	en := g.Calls(func(fn *types.Func, _ *ast.CallExpr) bool { return fn != nil && repoName(fn) == "vaxis.Vaxis.enableModes" })
+	en := g.Calls(func(fn *types.Func, _ *ast.CallExpr) bool {
+		return fn != nil && repoName(fn) == "vaxis.Vaxis.enableModes"
+	})
 	if len(en) != 1 {
 		c.undecided("C04.d", "vaxis.New/enableModes", nw.Decl.Pos(), "expected one call of enableModes in New, found %d", len(en))
 		return
@@ -574,7 +691,7 @@ func c04GuardStability(c *Ctx, info *types.Info) {
 			}
 		case *ast.CallExpr:
 			if fn := calleeOf(info, t); fn != nil {
-				if fi := c.P.FuncOfObj(fn); fi != nil && writers[fi.Name] && fi.Name != "vaxis.New" {
+				if fi := c.P.FuncOfObj(fn); fi != nil && fi.Name != "vaxis.New" && reachesWriter(fi) {
 					return true
 				}
 			}
@@ -597,7 +714,7 @@ func c04GuardStability(c *Ctx, info *types.Info) {
 	if offender == nil {
 		c.ok("C04.d", "vaxis.New/no capability write after enableModes", en[0].Node.Pos(), "all capability writers run before the modes are enabled")
 	} else {
-		c.bad("C04.d", "vaxis.New/no capability write after enableModes", offender.Pos(), "%s runs after enableModes and writes capability flags: a mode enabled under the old value is reset under the new one (or never)", types.ExprString(offender.(ast.Expr)))
+		c.bad("C04.d", "vaxis.New/no capability write after enableModes", offender.Pos(), "%s runs after enableModes and writes capability flags: a mode enabled under the old value is reset under the new one (or never)", c04NodeString(offender))
 	}
 	// nothing reachable from the frame / exit path writes caps
 	for _, root := range []string{"vaxis.(*Vaxis).Render", "vaxis.(*Vaxis).Suspend", "vaxis.(*Vaxis).Resume"} {
@@ -613,4 +730,18 @@ func c04GuardStability(c *Ctx, info *types.Info) {
 		}
 		c.check(bad == "", "C04.d", root+"/reaches no capability writer", fi.Decl.Pos(), "capability flags are stable after start-up", "reaches "+bad+" which writes capability flags")
 	}
+}
+
+func c04NodeString(n ast.Node) string {
+	switch t := n.(type) {
+	case ast.Expr:
+		return types.ExprString(t)
+	case *ast.AssignStmt:
+		var l []string
+		for _, e := range t.Lhs {
+			l = append(l, types.ExprString(e))
+		}
+		return "the assignment to " + strings.Join(l, ", ")
+	}
+	return fmt.Sprintf("%T", n)
 }
